@@ -215,10 +215,37 @@ def run_native(binp, harness, replay, timeout=10, retries=0):
     return {'end': end, 'out': outs, 'reach': reach, 'stderr': se[-1500:], 'rc': p.returncode}
 
 
+_VG = {}
+_VGLOCK = __import__('threading').Lock()
+
+
+def valgrind_replay(h, rp):
+    """True if memcheck reports a use of uninitialised memory (or an invalid access) for this replay"""
+    info = _VG.get('build')
+    if info is None: return False
+    with _VGLOCK:
+        binp = _VG.get(h.tu)
+        if binp is None:
+            cmd, binp = info(h.tu)
+            rc, out, dt = run_cmd(cmd)
+            _VG[h.tu] = binp if rc == 0 else ''
+            binp = _VG[h.tu]
+    if not binp: return False
+    try:
+        p = subprocess.run(['valgrind', '-q', '--error-exitcode=97', '--track-origins=no', binp, h.name, rp], stdout=subprocess.PIPE, stderr=subprocess.PIPE, timeout=120)
+    except Exception: return False
+    se = p.stderr.decode('utf8', 'replace')
+    return p.returncode == 97 or 'uninitialised' in se or 'Invalid read' in se or 'Invalid write' in se
+
+
 def native_confirms(v, nat):
     k = v['kind']; e = nat['end']
     if k == 'assert': return e == 'assert:' + v['id']
-    if k == 'ub': return e in ('asan', 'ubsan', 'libassert') or e.startswith('signal:')
+    if k == 'ub':
+        if e in ('asan', 'ubsan', 'libassert', 'valgrind') or e.startswith('signal:'): return True
+        # an uninitialised value reaching verif_assert(ID): natively the garbage makes that very assertion fail
+        m = re.match(r'uninitialised value in verif_assert\((.*)\)$', v['id'])
+        return bool(m) and e == 'assert:' + m.group(1)
     if k == 'loop': return e == 'timeout' or e in ('asan',) or e.startswith('signal:')
     if k == 'throw': return e.startswith('terminate:')
     if k == 'abort': return e.startswith('signal:') or e.startswith('terminate:') or e.startswith('rc:')
@@ -295,6 +322,14 @@ def main():
         for b in broken: print('BROKEN:', b)
         write_evidence(prop, tier, seed, t0, [], {}, broken, [], 0, {})
         sys.exit(2)
+    def vg_build(tu):
+        tags = tutags[tu]; names = sorted(set(h.name for h in allh if h.tu == tu))
+        (cl, ll), (gx, binp) = build_tu(tu, tags, names, bdir)
+        vb = binp.replace('.bin', '.vg.bin')
+        cmd = [x for x in gx if not x.startswith('-fsanitize') and not x.startswith('-fno-sanitize') and x != '-O1'] + ['-O0']
+        cmd[cmd.index(binp)] = vb
+        return cmd, vb
+    _VG['build'] = vg_build
     # ---- 2. decide
     known = load_known(prop)
     jobs = [([tuinfo[h.tu]['ll']] + tuinfo[h.tu]['models'], h.name, h.params, h.opts, [k for k in known if re.fullmatch(k['harness'], h.name)], tutags[h.tu]['stubs']) for h in allh]
@@ -322,7 +357,12 @@ def main():
         for k, v in enumerate(r.get('violations', [])):
             rp = os.path.join(rdir, '%s-%s-cex%d.replay' % (prop, h.key, k)); write_replay(rp, h.name, h.params, v['inputs'], v.get('uf'))
             nat = run_native(binp, h.name, rp, timeout=int(h.opts.get('hang_s', 10)))
-            out['viol'].append((v, rp, nat, native_confirms(v, nat)))
+            conf = native_confirms(v, nat)
+            if not conf and v['kind'] == 'ub' and 'uninitialised' in v['id']:
+                # no sanitizer in the replay build sees reads of uninitialised memory: ask valgrind (plain -O0 build, made on demand)
+                vg = valgrind_replay(h, rp)
+                if vg: nat = dict(nat); nat['end'] = 'valgrind'; conf = True
+            out['viol'].append((v, rp, nat, conf))
         return out
     with ThreadPoolExecutor(max_workers=a.jobs) as tp:
         vals = list(tp.map(validate, range(len(allh))))
